@@ -1,6 +1,6 @@
 """C18 — the depth limit is exact and parse cost stays bounded."""
 import random, time, warnings
-from . import core, dc, dcsuite, dyn, findings
+from . import core, dc, dcsuite, decl, dyn, findings
 
 PID = "C18"
 KINDS = ["list", "optional", "dict", "tuple", "union", "dictf", "dictd", "dictb", "listopt", "dictn"]
@@ -101,6 +101,35 @@ def strict_cost_check():
     return None, out
 
 
+SUBJECTS = [("list", "node_decl_ex"), ("dict", "dnode_decl_ex"), ("optional", "onode_decl_ex")]
+
+
+def subject_tie(res):
+    """the classes the theorems of Props/C18.v speak about are exactly what the real declarations reflect to: each of the
+    three classes is declared with the real library for several limits, reflected (decl.reflect_class) and compared in Coq,
+    by conversion, with node_decl_ex / dnode_decl_ex / onode_decl_ex applied to the reflected exclude list and the limit"""
+    goals, n = [], 0
+    for kind, name in SUBJECTS:
+        for d in (1, 2, 5):
+            cls, src = dc.node_class(kind, d, "Schema", {})
+            w = decl.World()
+            cid = w.cid(cls)
+            goals.append("Definition R%d : cdecl := %s.\nGoal R%d = %s (c_exclude_vars R%d) (Some %d).\n"
+                         "first [reflexivity; idtac \"TIE-OK %d\" | idtac \"TIE-BAD %d\"]. Abort.\n"
+                         % (n, w.decls[cid], n, name, n, d, n, n))
+            n += 1
+    rc, out = core.coq_eval("c18_subjects", ["Parse", "DepthSpec"], "\n".join(goals))
+    ok = len([l for l in out.splitlines() if l.startswith("TIE-OK")])
+    bad = [l for l in out.splitlines() if l.startswith("TIE-BAD")]
+    res.add_suite("theorem-subjects", n, ok, [dict(case="class Node(Schema): v: int; link: List['Node'] / Dict[str,'Node'] / Optional['Node'], max_depth=1/2/5",
+                                                   impl="reflected declaration == the declaration the theorem quantifies over")],
+                  "the real classes of the three proved families reflect to the theorems' declarations (by conversion in Coq)",
+                  dict(mismatches=len(bad)))
+    if rc != 0 or bad or ok != n:
+        res.broken.append(dict(kind="correspondence", name="theorem-subjects",
+                               detail="the reflected classes differ from the theorems' declarations: %s\n%s" % (bad, out[-1200:])))
+
+
 def main(tier, seed):
     warnings.simplefilter("ignore")
     res = core.Result(PID, tier, seed)
@@ -122,6 +151,7 @@ def main(tier, seed):
         for c, o, msg in bad[:3]:
             res.violations.append(dict(case=repr(dict(cls_source=classes[c["cls"]][2], data=c["data"])), observed=repr(o)[:300],
                                        what="depth limit not exact: " + msg))
+    subject_tie(res)
     msg, cost_table = strict_cost_check()
     res.cov["leaf_conversions_strict_class_depth_3_6_9_12"] = [c for _, c in cost_table]
     if msg:
@@ -129,9 +159,10 @@ def main(tier, seed):
     findings.replay_all(res, PID, {"C18-exp-cost": exp_cost_finding})
     res.cov["leaf_conversions_invalid_chain_depth_1_to_8"] = getattr(exp_cost_finding, "counts", None)
     return core.finish(res, "make -C coq Props/C18.vo && coqc (Print Assumptions audit)", "see suites", search=None,
-                       level_note="exactness is a theorem for the List['Node'] family over all trees; the other link kinds and "
-                                  "option sets are covered by the depth correspondence suite + the nesting oracle; the cost half is a "
-                                  "known finding (exponential), measured, not proved")
+                       level_note="exactness is a theorem for the List['Node'], Dict[str,'Node'] and Optional['Node'] families over all "
+                                  "trees / chains (the declarations are tied to the reflected real classes by the theorem-subjects "
+                                  "suite); the other link kinds and option sets are covered by the depth correspondence suite + the "
+                                  "nesting oracle; the cost half is a known finding (exponential), measured, not proved")
 
 
 def replay(path):
